@@ -1341,7 +1341,9 @@ def _o_wallet_labels(w):
             got = wal.position_of(q, last)
         except BTClibValueError:
             continue     # an earlier chain cannot be derived: the raise is wallet.raise's business
-        if got is None or wal.script_pub_key(*got).script != q or got > (b_, i_):
+        if got is None or got[0] not in wal.branches:
+            return False, f"position_of(script_pub_key({b_}, {i_})) = {got}: not a position under the labels {wal.branches}"
+        if wal.script_pub_key(*got).script != q or got > (b_, i_):
             return False, f"position_of(script_pub_key({b_}, {i_})) = {got}"
     for b_ in (min(parsed) + 1, max(parsed) + 1, -1):
         if b_ in parsed:
@@ -1974,6 +1976,20 @@ def _multipath_case(ctx, g, net):
         scripts.append([(i, _expected(s, i, net)) for i in ([0, 1, H - 1] if _ranged(s) else [0])])
     ctx.check("multipath", {"text": text, "network": net, "expect": [whole(j) for j in range(n_alt)],
                             "scripts": scripts})
+    # the checksum of a MULTIPATH descriptor is verified before it is expanded: one changed character of the body
+    # (inside or outside a `<a;b>` step) or of the checksum, a truncated checksum, a character outside the charset
+    good = D.add_checksum(text.partition("#")[0])
+    body, _, cs = good.partition("#")
+    k = rng.randrange(len(body))
+    lt = body.index("<")
+    for bad_text in [
+        body[:k] + rng.choice([c for c in "0123456789abcdefgh" if c != body[k]]) + body[k + 1:] + "#" + cs,
+        body[:lt + 1] + rng.choice([c for c in "0123456789" if c != body[lt + 1]]) + body[lt + 2:] + "#" + cs,
+        body + "#" + cs[:3] + rng.choice([c for c in D.CHECKSUM_CHARSET if c != cs[3]]) + cs[4:],
+        body + "#" + cs[:-1],
+        body.replace("(", "(\u00e9", 1) + "#" + cs,
+    ]:
+        ctx.check("multipath", {"text": bad_text, "network": net, "expect": None}, key="multipath.checksum_not_verified")
 
 
 TYPES4 = ["p2pkh", "p2wpkh-p2sh", "p2wpkh", "p2tr"]
